@@ -3,6 +3,8 @@ package c09
 
 import (
 	"fmt"
+	"strings"
+	"sync"
 
 	"verif/core"
 	"verif/corpus"
@@ -100,6 +102,100 @@ func clip(s string, n int) string {
 	return s
 }
 
+// CheckSave is the oracle of format-on-save for one whole file x:
+//
+//  1. x counts if `templ generate` accepts it and `templ fmt <file>` (CheckFile's
+//     command) formats it; cli = its output. If the command refuses the file
+//     the server must not edit it either (no edits), else class "edits-refused".
+//  2. saved = the original text with the server's TextEdits applied by an LSP
+//     client (tsrc.ApplyEdits). saved must equal cli      (else class "differs")
+//  3. the server's own copy of the document must equal saved (else "server-copy")
+//
+// With saved == cli, "`templ fmt -fail` passes after one format-on-save" is
+// exactly fmt(cli) == cli, which CheckFile / Check decide (and for which the
+// known non-idempotent witnesses are listed); it is counted here, not judged again.
+func CheckSave(src string) tsrc.Outcome {
+	if _, err := tsrc.Gen(src); err != nil {
+		return tsrc.Outcome{}
+	}
+	cli, cerr := tsrc.FmtFile(src)
+	sv, err := tsrc.FormatOnSave(src)
+	if err != nil {
+		if cerr != nil {
+			return tsrc.Outcome{Accepted: true, Note: "save_both_refused"}
+		}
+		return tsrc.Outcome{Accepted: true, Changed: true, Class: "server-error", Detail: fmt.Sprintf("templ fmt formats the file, textDocument/formatting fails: %v", err)}
+	}
+	shape := tsrc.EditShape(src, sv.Edits)
+	if cerr != nil {
+		if len(sv.Edits) == 0 {
+			return tsrc.Outcome{Accepted: true, Note: "save_both_refused"}
+		}
+		return tsrc.Outcome{Accepted: true, Changed: true, Class: "edits-refused", Detail: fmt.Sprintf("templ fmt refuses the file (%v) but format-on-save edits it (%s)", cerr, shape)}
+	}
+	o := tsrc.Outcome{Accepted: true, Changed: sv.Text != src}
+	saveStats.add(src, cli, shape)
+	switch {
+	case sv.Text != cli:
+		o.Class = "differs"
+		o.Detail = fmt.Sprintf("%s on a document of %d lines; the editor saves %s, templ fmt writes %s", shape, strings.Count(src, "\n")+1, core.Q(clip(sv.Text, 300)), core.Q(clip(cli, 300)))
+	case sv.ServerCopy != sv.Text:
+		o.Class = "server-copy"
+		o.Detail = fmt.Sprintf("after formatting the server holds %s, the editor %s", core.Q(clip(sv.ServerCopy, 300)), core.Q(clip(sv.Text, 300)))
+	default:
+		if again, err := tsrc.FmtFile(sv.Text); err != nil || again != sv.Text {
+			o.Note = "save_not_clean_because_fmt_not_idempotent"
+		} else {
+			o.Note = "save_clean_after_one_run"
+		}
+	}
+	return o
+}
+
+// saveStats: how the line count of the sampled documents changes when
+// formatted, and which edit shapes the server produced.
+type saveStat struct {
+	mu                       sync.Mutex
+	jobs, shrink, grow, keep int
+	shapes                   map[string]int
+	seen                     map[string]bool
+}
+
+var saveStats = &saveStat{shapes: map[string]int{}, seen: map[string]bool{}}
+
+func (s *saveStat) add(src, cli, shape string) {
+	s.mu.Lock()
+	defer s.mu.Unlock()
+	if s.seen[src] { // reductions revisit programs; count each document once
+		return
+	}
+	s.seen[src] = true
+	s.jobs++
+	a, b := strings.Count(src, "\n"), strings.Count(cli, "\n")
+	switch {
+	case b < a:
+		s.shrink++
+	case b > a:
+		s.grow++
+	default:
+		s.keep++
+	}
+	s.shapes[shape]++
+}
+
+func (s *saveStat) report(c *core.Ctx) {
+	s.mu.Lock()
+	defer s.mu.Unlock()
+	c.Set("save_jobs", s.jobs)
+	c.Set("save_line_count_shrinks", s.shrink)
+	c.Set("save_line_count_grows", s.grow)
+	c.Set("save_line_count_kept", s.keep)
+	c.Set("save_edit_shapes", s.shapes)
+	if s.jobs > 0 && (s.shrink == 0 || s.grow == 0 || s.keep == 0) {
+		c.Inconclusive("format-on-save workload did not contain shrinking, growing and line-count-preserving documents")
+	}
+}
+
 // Weaker orders failure classes for the reducer: "unstable" (no fixed point,
 // not monotonically growing) is what a program with a converging and a growing
 // cause shows; the reduction may isolate either.
@@ -123,4 +219,26 @@ func Run(c *core.Ctx) {
 		progs = append(progs, tsrc.Prog{Origin: "impcell:" + cl.Name, Src: cl.Src})
 	}
 	rf.RunFile(progs)
+
+	// format-on-save through the LSP server
+	c.Assume("format-on-save is driven in-process: proxy.NewServer without gopls, document opened with TemplSource.Set, Server.Formatting called with an editor stub; the returned TextEdits are applied to the original text by the harness's own LSP client model (lines split at LF, UTF-16 characters, positions beyond the end clamp) — never by proxy.Document")
+	rs := tsrc.NewRunner(c, CheckSave, "format-on-save disagrees with templ fmt")
+	rs.Mode, rs.KeyPrefix, rs.NoRename = "save", "save:", true
+	var sprogs []tsrc.Prog
+	for _, cl := range tsrc.SaveCells() {
+		sprogs = append(sprogs, tsrc.Prog{Origin: "savecell:" + cl.Name, Src: cl.Src})
+	}
+	for _, cl := range tsrc.ImportCells() {
+		sprogs = append(sprogs, tsrc.Prog{Origin: "impcell:" + cl.Name, Src: cl.Src})
+	}
+	// a PRNG sample of the matrix (identifiers only: goimports has nothing to look up), each in one of five spellings
+	sr := c.Rand("save")
+	matrix := tsrc.Matrix()
+	for i, n := 0, c.Pick(1500, 8000); i < n; i++ {
+		cl := matrix[sr.Intn(len(matrix))]
+		v := sr.Intn(5)
+		sprogs = append(sprogs, tsrc.Prog{Origin: fmt.Sprintf("savematrix:%s/v%d", cl.Name, v), Src: tsrc.SaveVariant(cl.Src, v)})
+	}
+	rs.RunFile(sprogs)
+	saveStats.report(c)
 }
